@@ -589,8 +589,12 @@ func (h *c16) exec(line string) (string, string) {
 	}
 	h.lines = append(h.lines, line)
 	h.curDel = -1
+	hadVote := false
 	if oc := c16OpClass(kind); oc == "staking-hook" {
 		h.curDel = c16Idx(arg(1))
+		if h.curDel >= 0 && h.curDel < c16NActors {
+			_, hadVote = h.vote(h.curDel)
+		}
 	}
 	full, cls, extra := line, "", ""
 	switch kind {
@@ -740,6 +744,22 @@ func (h *c16) exec(line string) (string, string) {
 	}
 	if cls == "ok" {
 		h.changed = true
+		if hadVote {
+			if _, still := h.vote(h.curDel); !still {
+				h.r.Hit("vote-pruned-by-staking-hook")
+			} else {
+				h.r.Hit("vote-updated-by-staking-hook")
+			}
+		}
+	}
+	if cls == "hook-err" {
+		h.r.Hit("staking-message-rejected-by-sponsorship-hook")
+	}
+	if cls == "panic" {
+		h.r.Hit("claim-panics-division-by-zero-epoch-shares")
+	}
+	if kind == "claim" && strings.HasPrefix(extra, " paid=") && extra != " paid=0" {
+		h.r.Hit("claim-paid")
 	}
 	h.kinds = append(h.kinds, kind+"/"+cls)
 	h.monitorState(kind, cls)
